@@ -238,6 +238,29 @@ COUNT_DOMAIN = {
 }
 
 
+def rule_nested_empty(fx, col):
+    """C15 "round trip yields the same object ... for all nestings accepted by the trait": `impl<T: RefCnt> RefCnt for Option<T>`
+    maps None to the null pointer and accepts ANY inner kind, also one that maps a value of its own to null (another Option, a
+    Weak with its dangling value). Then Some(<inner empty>) and None are the same raw pointer and come back as None."""
+    impls = _refcnt_impls(fx)
+    opt = [st for st in impls if st.startswith('std::option::Option<')]
+    if not col.anchor('NESTED-EMPTY', 'RefCnt for Option<T>', len(opt) == 1):
+        return
+    imp = [i for i in fx.lib.impls if (i.get('trait') or '').endswith('ref_cnt::RefCnt') and (i.get('self_ty') or '').startswith('std::option::Option<')]
+    preds = imp[0]['predicates'] if imp else []
+    only_refcnt = [p_ for p_ in preds if p_.startswith('T: ') and not p_.endswith('Sized')] == ['T: ref_cnt::RefCnt']
+    nullable = []
+    for st, ms in sorted(impls.items()):
+        b = ms.get('into_ptr')
+        if b is not None and _null_condition(fx, b) is not None:
+            nullable.append(st)
+    col.floor('NESTED-EMPTY', 'kinds that map a value to null', len(nullable), 1)
+    for st in nullable:
+        col.add('NESTED-EMPTY', 'Option<%s>|Some(empty) distinct from None' % st, not only_refcnt,
+                'RefCnt for Option<T> requires only T: RefCnt (%s), and %s maps one of its own values to null: Some(<that value>) and None share the null pointer and '
+                'the round trip returns None' % (preds, st))
+
+
 def rule_kind_disjoint(fx, col):
     """C12 / C15: debts are keyed by the bare pointer value (PAY-CAS). Two storable pointer kinds whose raw pointers can be
     equal for one allocation but whose inc/dec move different counters can pay each other's debts with the wrong count."""
